@@ -1,0 +1,17 @@
+//go:build verif
+
+package openapiv2
+
+// Contracts checked by /verif/goavc (comment-only file, built only with -tags verif).
+
+// ---- generated output does not depend on map iteration order (C09) --------------------------------
+// Every function of this package that ranges over a map is either proved independent of the iteration order
+// (commutativity of the loop body, or keys collected and sorted before use) or listed here as NOT proved;
+// a range over a map appearing anywhere else in the package is reported.
+//@ maprange-census property C09: summaryFromExpr=4 summaryFromMeta=1
+//@ func NewV2
+//@   opt maprange deterministic
+//@   opt inline none
+//@   opt loopframes none
+//@   property C09
+//@   modifies all
